@@ -19,7 +19,7 @@ fn spec() -> Spec {
             Kind { name: "errors", quick: 6_000, thorough: 200_000, serial: false },
             Kind { name: "mutants", quick: 10_000, thorough: 1_000_000, serial: false },
         ],
-        rule: "extract: OPW values (multiples of 1 mm, incl. zero a1/a2/b/c1/c4, negative a1/a2/b) written by the harness as URDF/xacro in every supported layout (c2 along z or x of joint 3, b on joint 3's y, c3 on joint 4 or joint 5, a2 as -z of joint 4, c4 along x or z), axis signs per joint, limits as radians / ${radians(deg)} / absent, shuffled joint order, random nesting depth, name decorations (${prefix}, side prefixes, case, underscores, KUKA style joint_a1), explicit joint-name lists (incl. a tcp name in place of joint 6), an identical second robot copy, extra fixed joints: extracted a1..c4, signs, from/to must equal the generator's; a joint without <limit> must accept every angle in the solver returned by to_robot. errors: missing joint, conflicting duplicate, malformed XML, malformed xyz: Err, never a panic. mutants: byte/line mutations of valid files: never a panic. non-trivial = extraction succeeded; distinct = hash(file text) Workload additions: <limit> elements without bounds; limits up to +-720 degrees / +-12.5 rad; the solver built by to_robot judged on sampled angles against the generator's arcs; the same document read with an explicit list of its raw names before / after the automatic reading; non-ASCII name prefixes; negative c2 / c3; axis components written as reals.",
+        rule: "extract: OPW values (multiples of 1 mm, incl. zero a1/a2/b/c1/c4, negative a1/a2/b) written by the harness as URDF/xacro in every supported layout (c2 along z or x of joint 3, b on joint 3's y, c3 on joint 4 or joint 5, a2 as -z of joint 4, c4 along x or z), axis signs per joint, limits as radians / ${radians(deg)} / absent, shuffled joint order, random nesting depth, name decorations (${prefix}, side prefixes, case, underscores, KUKA style joint_a1), explicit joint-name lists (incl. a tcp name in place of joint 6), an identical second robot copy, extra fixed joints: extracted a1..c4, signs, from/to must equal the generator's; a joint without <limit> must accept every angle in the solver returned by to_robot. errors: missing joint, conflicting duplicate, malformed XML, malformed xyz: Err, never a panic. mutants: byte/line mutations of valid files: never a panic. non-trivial = extraction succeeded; distinct = hash(file text) Workload additions: <limit> elements without bounds; limits up to +-720 degrees / +-12.5 rad; the solver built by to_robot judged on sampled angles against the generator's arcs; the same document read with an explicit list of its raw names before / after the automatic reading; non-ASCII name prefixes; negative c2 / c3; axis components written as reals. Rounds 7-9: children of a joint element in any order; parameters() and the forward kinematics of to_robot() compared with the generator; joints at different nesting depths; one <limit> mixing both syntaxes; short / long xyz vectors.",
         assumptions: vec![
             "generated geometry has c2 != 0 and, for the c3-on-joint-4 layout, a2 != 0: with those values zero the single-non-zero heuristics of the extractor cannot distinguish the layouts and the description is ambiguous",
             "the dof value reported for an explicit name list with a tcp name is recorded in the evidence but not judged (the statement does not define it)",
@@ -190,7 +190,20 @@ fn gen_urdf(rng: &mut Rng) -> Gen {
                 let hi = (rng.range(0.2, 12.5) * 1e4).round() / 1e4;
                 from[j] = lo;
                 to[j] = hi;
-                format!("      <limit lower=\"{}\" upper=\"{}\" effort=\"0\" velocity=\"3.67\"/>\n", lo, hi)
+                // (a third of these limits mixes the two syntaxes: one bound in radians, the other as ${radians(deg)})
+                match rng.usize(6) {
+                    0 => {
+                        let d = -(rng.int(10, 720) as f64);
+                        from[j] = d.to_radians();
+                        format!("      <limit lower=\"${{radians({})}}\" upper=\"{}\" effort=\"0\" velocity=\"3.67\"/>\n", d as i64, hi)
+                    }
+                    1 => {
+                        let d = rng.int(10, 720) as f64;
+                        to[j] = d.to_radians();
+                        format!("      <limit lower=\"{}\" upper=\"${{radians({})}}\" effort=\"0\" velocity=\"3.67\"/>\n", lo, d as i64)
+                    }
+                    _ => format!("      <limit lower=\"{}\" upper=\"{}\" effort=\"0\" velocity=\"3.67\"/>\n", lo, hi),
+                }
             }
         };
         let o = origins[j];
@@ -258,7 +271,19 @@ fn gen_urdf(rng: &mut Rng) -> Gen {
         body.push_str(&format!("  <{}>\n", tag));
         open.push(tag.split(' ').next().unwrap().to_string());
     }
+    // a quarter of the documents puts SOME of the blocks into an extra wrapper of their own (joints at different depths:
+    // a fixed mounting joint next to the wrapped robot, wrist joints grouped separately)
+    let uneven = rng.bool(0.25);
+    if uneven {
+        features.push("joints_at_different_depths".to_string());
+    }
     for (i, bl) in blocks.iter().enumerate() {
+        if uneven && rng.bool(0.4) {
+            body.push_str("    <group>\n");
+            body.push_str(bl);
+            body.push_str("    </group>\n");
+            continue;
+        }
         body.push_str(bl);
         if i % 3 == 0 {
             body.push_str(&format!("    <link name=\"l{}\"><visual><origin xyz=\"9 9 9\" rpy=\"0 0 0\"/></visual></link>\n", i));
